@@ -159,6 +159,10 @@ def check(world, spec, outcome) -> None:
             if err is not None and u is not None and not isinstance(u, tuple):
                 if f["exc"] != type(err).__name__ or not str(err).strip("'").startswith(f"{s}/{u}/"):
                     world.violate("C08.fail-shape", f"run failed with {err!r}; original exception of step {s} uid {u} expected", seq, validation=dv)
+    err = outcome.get("error") if outcome else None
+    if err is not None and summary["failed_step"] is None and last_failed_tick is not None and str(err).strip("'").startswith(f"{last_failed_tick[0]}/"):
+        # the run raised a step's exception: "fails with the original exception AND a WorkflowFailedEvent"
+        world.violate("C08.no-failed-event", f"run failed with {err!r} (step {last_failed_tick[0]}) but no WorkflowFailedEvent was published on its stream", last_failed_tick[2], validation=dv)
     summary["entries"] = len(entries)
     summary["outcome"] = "error:" + type(outcome["error"]).__name__ if outcome and "error" in outcome else ("result" if outcome and "result" in outcome else "other")
     if reentry:
